@@ -106,6 +106,12 @@ void build(int id, Qentem::Value<Char_T> &v) {
             v[K("k1").v()] += 1;
             v[K("k2").v()] += str<Char_T>("q");
             v[K("k<").v()][K("in").v()] = 7;
+            // keys made of brackets / empty keys: what a name such as "]" or "a[]" can resolve to
+            v[K("]").v()][K("").v()] = 3;
+            v[K("a]").v()]           = 1;
+            v[K("[").v()]            = 2;
+            v[K("a").v()][K("").v()][K("").v()] = 4;
+            v[K("").v()]             = 5;
             break;
         }
         default: { // numeric strings and large numbers
